@@ -37,6 +37,14 @@ def planted(tag, n, k):
     return np.array([vals[(k + i) % len(vals)] for i in range(n)], dtype=tag)
 
 
+def list_dt(n, k):
+    """a Python list of np.datetime64 scalars of MIXED units, coarsest first (date, second, microsecond, millisecond)"""
+    base = np.datetime64('2021-03-04', 'D') + np.timedelta64(k, 'D')
+    vals = [base, np.datetime64(str(base) + 'T05:06:07', 's'), np.datetime64(str(base) + 'T05:06:07.123456', 'us'),
+            np.datetime64(str(base) + 'T23:59:59.999', 'ms')]
+    return vals[:n]
+
+
 def canon_written(arr, tag):
     if tag in ('str', 'symstr'):
         return list(arr)
@@ -87,6 +95,9 @@ class Program:
         if kind == 'str':
             self.props.setdefault(path, {})[name] = ('String', 'vä/lue')
             return 'vä/lue'
+        if kind.startswith('strv:'):
+            self.props.setdefault(path, {})[name] = ('String', kind[5:])
+            return kind[5:]
         if kind.startswith('symstr:'):
             s, _ = sym_str(ctx, 'str_' + uid, int(kind[7:]))
             self.props.setdefault(path, {})[name] = ('String', s)
@@ -139,6 +150,10 @@ class Program:
             data = arr
             tag = 'int8'
             vals = canon_written(np.array(arr, dtype='int8'), 'int8')
+        elif tag == 'list-dt':
+            data = list_dt(n, self.k)
+            tag = 'datetime64'
+            vals = [int(x.astype('datetime64[us]').astype('int64')) for x in data]
         else:
             data = planted(tag, n, self.k)
             vals = canon_written(data, tag)
